@@ -354,3 +354,16 @@ Proof.
   intros C Hn Hm tm HY HY'. rewrite (client_now_shift off_m off_n now') in *.
   exact (ls_date_recent half two off_m mtime now (now' + (off_n - off_m)) C Hn Hm HY HY').
 Qed.
+
+(* ---------------- sub-second timestamps: the facts are those of the floor ---------------- *)
+From Coq Require Import QArith Qround.
+Open Scope Z_scope.
+
+Theorem mlsx_time_real_floor (q : Q) :
+  1000 <= yr (civil_of_epoch (Qfloor q)) <= 9999 ->
+  let e := epoch_of_civil (parse14 (format_mlsx_time_real q)) in
+  (inject_Z e <= q)%Q /\ (q < inject_Z (e + 1))%Q.
+Proof.
+  intro H. cbv zeta. unfold format_mlsx_time_real. rewrite (mlsx_time_exact (Qfloor q) H).
+  split; [apply Qfloor_le|apply Qlt_floor].
+Qed.
